@@ -107,7 +107,9 @@ fn check_table<P: ParseAt + Fields, E: EndianParse>(ctx: &mut Ctx, e: E, enc: En
     }
     // get(i) succeeds exactly for i < len
     let mut got: Vec<P> = Vec::new();
-    let probe = (0..n + 3).chain([usize::MAX / entsize - 1, usize::MAX / entsize, usize::MAX / entsize + 1, usize::MAX - 1, usize::MAX]);
+    let half = 1usize << (usize::BITS - 1);
+    let wrap = (usize::MAX / entsize).wrapping_add(1); // smallest index whose byte offset wraps
+    let probe = (0..n + 3).chain([usize::MAX / entsize - 1, usize::MAX / entsize, wrap, wrap.wrapping_add(1), wrap.wrapping_add(n / 2), usize::MAX - 1, usize::MAX, half, half.wrapping_add(1), half / entsize.next_power_of_two(), (half / entsize.next_power_of_two()).wrapping_mul(2), 1usize << (usize::BITS / 2), (1usize << (usize::BITS / 2)).wrapping_add(n / 2)]);
     for i in probe {
         ctx.eval();
         if i > n + 2 {
